@@ -3,6 +3,7 @@ import GdModel.Driver.Tok
 import GdModel.Driver.Field
 import GdModel.Scope.Model
 import GdModel.Scope.Alias
+import GdModel.Cxx.Ascii
 namespace GdModel.Driver
 open GdModel.Scope
 
@@ -86,5 +87,16 @@ def handleAlias (args : List String) : String :=
   let lk := Alias.Impl.update tab
   "alias impl=" ++ ",".intercalate (lk.ult.map showOpt) ++ " spec=" ++
     ",".intercalate ((List.range tab.length).map fun i => showOpt (Alias.Spec.ultimate tab i))
+
+/-- `d2a <nf> <skip> <maxSpf> <skipping 0|1> <spf>`: the rows of dirfile2ascii's print loop with,
+    per row, the sample index a field of rate `spf` starts from -/
+def handleD2a (args : List String) : String :=
+  match args.map String.toNat? with
+  | [some nf, some skip, some maxSpf, some sk, some spf] =>
+    let skipping := sk != 0
+    "d2a" ++ String.join ((GdModel.Cxx.rowIdx nf skip maxSpf skipping).map fun (k, j) =>
+      let idx := if spf == maxSpf || skipping then GdModel.Cxx.directIndex spf k j else GdModel.Cxx.prevIndex spf maxSpf k j
+      s!" {k}:{j}:{idx}")
+  | _ => "bad-op"
 
 end GdModel.Driver
